@@ -453,8 +453,16 @@ func (t *wal) Clear() error {
 	t.Lock()
 	defer t.Unlock()
 
-	err := multierr.Combine(
-		t.currentSegment.Close(),
+	return t.clearWithoutLock(true)
+}
+
+func (t *wal) clearWithoutLock(closeCurrentSegment bool) error {
+	var err error
+	if closeCurrentSegment {
+		err = t.currentSegment.Close()
+	}
+	err = multierr.Combine(
+		err,
 		t.readOnlySegments.Close(),
 		os.RemoveAll(t.walPath),
 	)
@@ -529,8 +537,9 @@ func (t *wal) TruncateLog(lastSafeOffset int64) (int64, error) { //nolint:revive
 			case err != nil:
 				return InvalidOffset, err
 			case segment == nil:
-				// There are no segments left
-				if err := t.Clear(); err != nil {
+				// There are no segments left. The lock is already held and the
+				// current segment was already closed and deleted above
+				if err := t.clearWithoutLock(false); err != nil {
 					return InvalidOffset, err
 				}
 				return t.LastOffset(), nil
